@@ -135,7 +135,19 @@ func oneLife(file string, first bool, lines []string, probe bool) (live map[stri
 	}
 	done := make(chan error, 1)
 	go func() { done <- c.Loop(ctx) }()
-	for _, l := range lines {
+	// a last line whose processing leaves a trace in the output (the
+	// captain deletes a machine that does not exist: a change record, no
+	// change): when the coupling has printed it, every line before it
+	// has been processed and its result taken over by the coupling.
+	// (Crew.Loop sends its results unconditionally; ending the context
+	// while a result is on its way would leave the loop blocked.)
+	sentinel := fmt.Sprintf("zz-none-%d", time.Now().UnixNano())
+	feed := append([]string{}, lines...)
+	if len(lines) > 0 {
+		// (a life that sees no message gets none: the loop stays idle)
+		feed = append(feed, fmt.Sprintf(`{"to":"captain","delete":[%q]}`, sentinel))
+	}
+	for _, l := range feed {
 		if _, err := io.WriteString(pw, l+"\n"); err != nil {
 			return nil, "", err
 		}
@@ -146,23 +158,23 @@ func oneLife(file string, first bool, lines []string, probe bool) (live map[stri
 	case <-time.After(10 * time.Second):
 		return nil, "", fmt.Errorf("the coupling did not reach the end of its input within 10 s")
 	}
-	// the input has been handed to the loop; what the loop still has to
-	// do with the last message is done when the file describes the crew
-	// (the property itself: so wait for that, bounded, rather than for
-	// a fixed time)
 	view := func() map[string]string {
 		c.Lock()
 		defer c.Unlock()
 		return liveView(c)
 	}
-	if len(lines) > 0 {
-		for deadline := time.Now().Add(5 * time.Second); time.Now().Before(deadline); time.Sleep(2 * time.Millisecond) {
-			if fv, err := fileView(file); err == nil && viewText(fv) == viewText(view()) {
-				break
-			}
+	for deadline := time.Now().Add(10 * time.Second); len(lines) > 0; time.Sleep(time.Millisecond) {
+		out.mu.Lock()
+		seen := strings.Contains(out.b.String(), "update "+sentinel)
+		out.mu.Unlock()
+		if seen {
+			break
 		}
-		time.Sleep(5 * time.Millisecond)
+		if time.Now().After(deadline) {
+			return nil, "", fmt.Errorf("the last input line was not processed within 10 s")
+		}
 	}
+	time.Sleep(2 * time.Millisecond)
 	live = view()
 	cancel()
 	select {
